@@ -30,12 +30,16 @@ theorem schema_separators :
     precedence theorem applies to every one of them. -/
 theorem cli_table_sound :
     ∀ e ∈ Generated.cliTable,
-      (match tagOf Generated.settingsSchema e.1, e.2 with
+      (match tagOf Generated.settingsSchema e.1, e.2.1 with
        | some .listStr, .append | some .listPath, .append | some .dictStr, .append | some .plainList, .append => true
        | some .str, .store | some .optStr, .store | some .path, .store | some .optPath, .store => true
        | some .bool, .storeTrue | some .bool, .storeFalse => true
-       | _, _ => false) = true := by
+       | _, _ => false) = true ∧ e.2.2 = none := by
   decide
+
+/-- No two command-line options write the same settings field (otherwise which of them
+    "the command-line value" is would depend on argparse's processing order). -/
+theorem cli_table_dests_distinct : (Generated.cliTable.map (·.1)).Nodup := by decide
 
 /-! ### metadata and fpm.toml mean the same -/
 
@@ -97,6 +101,14 @@ theorem formats_agree_block (schema : List (Str × Tag × PyVal)) (seps : List (
     simp only [List.map_cons, convertMeta, h1, convert_md_eq_denote seps _ _ _ _ _ h2 h3,
       ih (fun o' ho' => h o' (by simp [ho']))]
 
+/-- non-vacuity: an extension written with leading dots is a well-formed file type; both
+    formats keep it verbatim -/
+example : wellFormed .dictEft ' ' [] (.filetypes [⟨".inc".toList, "!".toList, some "fortran".toList⟩, ⟨"..x".toList, ";".toList, none⟩]) := by
+  refine ⟨rfl, by simp, by decide, ?_⟩
+  intro ft hft
+  simp at hft
+  rcases hft with h | h <;> subst h <;> exact ⟨by decide, by decide, by simp [noSpace, isSpace]⟩
+
 /-- non-vacuity: `alias: a = b` with the generated separator table -/
 example : wellFormed .dictStr '=' [] (.table [("a ".toList.dropLast, "b".toList)]) := by
   refine ⟨rfl, by simp, by simp, ?_⟩
@@ -132,6 +144,75 @@ theorem precedence (schema : List (Str × Tag × PyVal)) (seps : List (Str × St
     | some v => simp [aget_applyConfig_some cfg s k v hcfg hf]
     | none => simp [aget_applyConfig_none cfg s k hf]
 
+/-- The argparse namespace FORD sees, for any (dest, action, default) table whose defaults are
+    all `None`: it holds exactly the options given on the command line - an option of the
+    table that was given carries the given value, every other name is absent. -/
+theorem cli_namespace_is_given (table : List (Str × CliKind × Option PyVal)) (given : Settings) (k : Str)
+    (hdef : ∀ e ∈ table, e.2.2 = none) :
+    aget k (cliNamespace table given) = if k ∈ table.map (·.1) then aget k given else none := by
+  split
+  · next hk => exact aget_cliNamespace_given table given k hdef hk
+  · next hk => exact aget_cliNamespace_not_mem table given k hk
+
+/-- Precedence stated on what the user typed (`given`) rather than on the namespace, over the
+    regenerated argparse table: for every option `k` of the table, after `parse_arguments`'
+    override steps the field holds the converted command-line value when `k` was given, else
+    the `--config` value, else what the file gave.  Breaks when any action of
+    `get_command_line_arguments` gets a default other than `None`. -/
+theorem precedence_generated_cli (given cfg s s' : Settings) (k : Str) (t : Tag)
+    (hcfg : (cfg.map (·.1)).Nodup)
+    (hk : k ∈ Generated.cliTable.map (·.1)) (ht : tagOf Generated.settingsSchema k = some t)
+    (h : applyCli Generated.settingsSchema Generated.optionSeparators
+          (cliNamespace Generated.cliTable given) (applyConfig cfg s) = .ok s') :
+    aget k s' =
+      match aget k given with
+      | some v => (match convertSetting Generated.optionSeparators t k v with | .ok w => some w | .error _ => none)
+      | none =>
+        match aget k cfg with
+        | some v => some v
+        | none => aget k s := by
+  have hdef : ∀ e ∈ Generated.cliTable, e.2.2 = none := fun e he => (cli_table_sound e he).2
+  have hns := cliNamespace_keys_nodup Generated.cliTable given cli_table_dests_distinct
+  have := precedence Generated.settingsSchema Generated.optionSeparators cfg
+    (cliNamespace Generated.cliTable given) s s' k t hns hcfg ht h
+  rw [this, aget_cliNamespace_given _ _ _ hdef hk]
+
+/-- An option that is *not* given on the command line - whether it has a switch or not - keeps
+    the value of `--config` / the file, for every field and every command line: an absent
+    switch never overrides the file.  (Over the regenerated table; this is the obligation that
+    no longer checks when an argparse default stops being `None`.) -/
+theorem absent_cli_keeps_file (given cfg s s' : Settings) (k : Str)
+    (hcfg : (cfg.map (·.1)).Nodup) (hk : aget k given = none)
+    (h : applyCli Generated.settingsSchema Generated.optionSeparators
+          (cliNamespace Generated.cliTable given) (applyConfig cfg s) = .ok s') :
+    aget k s' = match aget k cfg with
+      | some v => some v
+      | none => aget k s := by
+  have hdef : ∀ e ∈ Generated.cliTable, e.2.2 = none := fun e he => (cli_table_sound e he).2
+  rw [aget_applyCli_none _ _ _ _ _ k (aget_cliNamespace_none _ given k hdef hk) h]
+  cases hf : aget k cfg with
+  | some v => simp [aget_applyConfig_some cfg s k v hcfg hf]
+  | none => simp [aget_applyConfig_none cfg s k hf]
+
+/-- Why the hypothesis "all defaults are `None`" is needed, for any table: an action declared
+    with another default (e.g. argparse's implicit `False` of a bare `store_true`) puts that
+    default into the namespace although the switch was not given, and `parse_arguments` then
+    writes it over the value from the file. -/
+theorem cli_default_overrides_file_witness (schema : List (Str × Tag × PyVal)) (seps : List (Str × Str))
+    (r : List (Str × CliKind × Option PyVal)) (given s s' : Settings) (k : Str) (kd : CliKind) (d : PyVal) (t : Tag)
+    (hnd : (((k, kd, some d) :: r).map (·.1)).Nodup) (hk : aget k given = none)
+    (ht : tagOf schema k = some t)
+    (h : applyCli schema seps (cliNamespace ((k, kd, some d) :: r) given) s = .ok s') :
+    ∃ w, convertSetting seps t k d = .ok w ∧ aget k s' = some w :=
+  aget_applyCli_some schema seps _ s s' k d t (cliNamespace_keys_nodup _ given hnd)
+    (aget_cliNamespace_default _ given k kd d r rfl hk) ht h
+
+/-- non-vacuity of the witness: `force: true` in the file, `--force` declared `store_true` with
+    the implicit default `False`, nothing given: the file's value is lost -/
+example : applyCli [("force".toList, Tag.bool, .atom (.bool false))] []
+    (cliNamespace [("force".toList, CliKind.storeTrue, some (.atom (.bool false)))] [])
+    [("force".toList, .atom (.bool true))] = .ok [("force".toList, .atom (.bool false))] := by rfl
+
 /-- File over defaults: the keyword arguments of `ProjectSettings(**kw)` (what fpm.toml or the
     converted metadata supply) replace the defaults, every other field keeps its default -
     before `__post_init__`, for any number of options. -/
@@ -143,6 +224,38 @@ theorem file_over_defaults (schema : List (Str × Tag × PyVal)) (kw s : Setting
   cases hk : aget k kw with
   | some v => simp [aget_overlay_some schema kw _ s k v hnd hk h]
   | none => simp [aget_overlay_none schema kw _ s k hk h]
+
+/-! ### `extra_mods` and the built-in module table -/
+
+/-- File over defaults for the entries of `extra_mods`, variant `repaired`
+    (`{**INTRINSIC_MODS, **extra_mods}`): whatever the built-in table is, every entry the
+    settings file gives is effective after `__post_init__`' merge. -/
+theorem extra_mods_entry_effective (intrinsic : List (Str × Str)) (mods : List (Str × Atom)) (k : Str) (v : Atom)
+    (hnd : (mods.map (·.1)).Nodup) (h : aget k mods = some v) :
+    aget k (mergeMods true intrinsic mods) = some v := by
+  simp only [mergeMods, if_true]
+  exact aget_overlayMods_some mods _ k v hnd h
+
+/-- The same for the code as it is (`extra_mods.update(INTRINSIC_MODS)`), which only holds
+    outside the explicit class "the module is a key of the built-in table". -/
+theorem extra_mods_entry_effective_partial (intrinsic : List (Str × Str)) (mods : List (Str × Atom)) (k : Str)
+    (hk : k ∉ intrinsic.map (·.1)) :
+    aget k (mergeMods false intrinsic mods) = aget k mods := by
+  simp only [mergeMods, Bool.false_eq_true, if_false]
+  exact aget_updateAll_not_mem intrinsic mods k hk
+
+/-- The excluded class is real (finding C15-extra-mods-intrinsic-wins): for a module of the
+    built-in table the effective URL is a built-in one whatever the settings file says -
+    a default overrides the file. -/
+theorem extra_mods_intrinsic_wins_witness (intrinsic : List (Str × Str)) (mods : List (Str × Atom)) (k : Str)
+    (hk : k ∈ intrinsic.map (·.1)) :
+    ∃ u, (k, u) ∈ intrinsic ∧ aget k (mergeMods false intrinsic mods) = some (.str u) := by
+  simp only [mergeMods, Bool.false_eq_true, if_false]
+  exact aget_updateAll_mem intrinsic mods k hk
+
+/-- non-vacuity over the regenerated table: `iso_c_binding` is in the class, `example_mod` is not -/
+example : "iso_c_binding".toList ∈ Generated.intrinsicMods.map (·.1)
+    ∧ "example_mod".toList ∉ Generated.intrinsicMods.map (·.1) := by decide
 
 /-! ### conversion of metadata values -/
 
